@@ -7,6 +7,7 @@ from typing import Set, List
 from ..loader import AnalysisError, norm_stmt, walk_own
 from ..consteval import ConstEval
 from .common import check as ob
+from .common import calls_in
 from ..canon import Canon, localise, each, custom
 
 EXPLANATION = (
@@ -34,6 +35,12 @@ def _isotope_predicate(expr) -> Set[str]:
                 isinstance(p.func.value, ast.Subscript) and isinstance(p.func.value.slice, ast.Constant) and \
                 p.func.value.slice.value == 0:
             out.add('first-char-is-digit')
+        elif isinstance(p, ast.Compare) and len(p.ops) == 1 and isinstance(p.ops[0], ast.In) and \
+                isinstance(p.comparators[0], (ast.Tuple, ast.List, ast.Set)) and \
+                all(isinstance(x, ast.Constant) for x in p.comparators[0].elts):
+            first = isinstance(p.left, ast.Subscript) and isinstance(p.left.slice, ast.Constant) and p.left.slice.value == 0
+            for x in p.comparators[0].elts:   # x in ('D', 'T')  is  x == 'D' or x == 'T'
+                out.add(f'first-char=={x.value}' if first else f'=={x.value}')
         elif isinstance(p, ast.Compare) and len(p.ops) == 1 and isinstance(p.ops[0], ast.Eq) and \
                 isinstance(p.comparators[0], ast.Constant):
             left = p.left
@@ -60,39 +67,67 @@ def writer_func(program):
                      's': custom(_returned_name)})
 
 
+def writer_scope(ctx):
+    """write_chem_formula and the private helpers of chem_util it calls (a helper that writes one component)"""
+    an, program = ctx.analyzer, ctx.program
+    w = program.func(f'{CU}:write_chem_formula')
+    out = [w]
+    for r in calls_in(an, w.fq):
+        g = r.callee
+        if g is not None and g.module.name == CU and g.name.startswith('_') and g.fq not in {x.fq for x in out}:
+            out.append(g)
+    return out
+
+
+def _mode_part(v) -> bool:
+    """`monoisotopic is True` / `monoisotopic` as one operand of the `or`: the mode, not part of the key predicate"""
+    return any(isinstance(x, ast.Name) and x.id == 'monoisotopic' for x in ast.walk(v))
+
+
 def predicates(ctx, rep, clause):
     program = ctx.program
-    w = writer_func(program)
+    w = program.func(f'{CU}:write_chem_formula')
     m = program.func(f'{CU}:chem_mass')
     p = program.func(f'{CU}:_parse_isotope_component')
     found = {}
-    for f in (w, m):
-        for n in walk_own(f.node):
-            if isinstance(n, ast.If) and isinstance(n.test, ast.BoolOp) and 'isdigit' in norm_stmt(n.test):
-                found[f.name] = (_isotope_predicate(n.test), n)
+    for f in writer_scope(ctx) + [m]:
+        for n in ast.walk(f.node):
+            # the predicate may be an if test, the test of a conditional expression, or a named boolean; nested
+            # functions (a private writer helper) are searched too
+            if isinstance(n, ast.BoolOp) and isinstance(n.op, ast.Or) and 'isdigit' in norm_stmt(n):
+                parts = [v for v in n.values if not (_mode_part(v))]
+                found['chem_mass' if f is m else 'write_chem_formula'] = (
+                    _isotope_predicate(ast.BoolOp(op=ast.Or(), values=parts) if len(parts) > 1 else parts[0]), n, f)
     for n in walk_own(p.node):
         if isinstance(n, ast.If) and isinstance(n.test, ast.BoolOp) and "'D'" in norm_stmt(n.test) and \
                 any(isinstance(s, ast.Return) for s in n.body):
-            found[p.name] = (_isotope_predicate(n.test), n)
+            found[p.name] = (_isotope_predicate(n.test), n, p)
     if set(found) != {'write_chem_formula', 'chem_mass', '_parse_isotope_component'}:
         raise AnalysisError(f'isotope-key predicates found only in {sorted(found)}')
     full = {'first-char-is-digit', '==D', '==T'}
     for name in ('write_chem_formula', 'chem_mass'):
-        pred, node = found[name]
-        f = w if name == 'write_chem_formula' else m
+        pred, node, f = found[name]
         ob(rep, 'SIB-predicate', f.fq, f'{name}: isotope-key predicate is (starts with a digit) or D or T', pred == full,
            'same predicate as its siblings', f'predicate is {sorted(pred)}: a key is bracketed by the writer but '
            f'weighed as a plain element (or the reverse)', f.loc(node), clause)
-    pred, node = found['_parse_isotope_component']
+    pred, node, _f = found['_parse_isotope_component']
     ob(rep, 'SIB-predicate', p.fq, 'the D/T shortcut of the isotope-component parser covers D and T',
        pred == {'first-char==D', 'first-char==T'}, 'D and T', f'shortcut is {sorted(pred)}', p.loc(node), clause)
-    # the writer brackets under the predicate and only then
-    pred_node = found['write_chem_formula'][1]
-    a = ' '.join(norm_stmt(s) for s in pred_node.body)
-    b = ' '.join(norm_stmt(s) for s in pred_node.orelse)
-    ob(rep, 'TOK-formula', w.fq, 'isotope keys are written as [key count], other keys as key count',
-       "f'[{k}{v}]'" in a and "f'{k}{v}'" in b, 'bracketed iff isotope key', f'branches: `{a}` / `{b}`',
-       w.loc(pred_node), clause)
+    # the writer brackets under the predicate and only then: the f-string with the [ ] literals is governed by a test
+    # that is (an alias of) the predicate, the plain two-value f-string sits on the other arm
+    from ..guards import dominating_tests
+    _pred, pnode, pf = found['write_chem_formula']
+    cpf = Canon(pf.node)
+    shapes = {}
+    for js in [x for x in ast.walk(pf.node) if isinstance(x, ast.JoinedStr)]:
+        lits = ''.join(v.value if isinstance(v, ast.Constant) else '{}' for v in js.values)
+        gov = [(cpf.resolve(t), pol) for t, pol in dominating_tests(pf.node, js)]
+        under = [pol for t, pol in gov if 'isdigit' in norm_stmt(t)]
+        shapes.setdefault(lits, []).append(under[-1] if under else None)
+    ok = shapes.get('[{}{}]') == [True] and False in (shapes.get('{}{}') or [])
+    ob(rep, 'TOK-formula', w.fq, 'isotope keys are written as [key count], other keys as key count', ok,
+       'bracketed iff isotope key', f'f-string shapes and the arm of the predicate they sit on: {shapes}',
+       pf.loc(pnode), clause)
 
 
 def symbols(program) -> List[str]:
@@ -249,11 +284,26 @@ def _under_not_in(f, st, d, k) -> bool:
 
 def writer_and_mass(ctx, rep, clause):
     program = ctx.program
-    w = writer_func(program)
-    txt = ' '.join(norm_stmt(s) for s in ast.walk(w.node) if isinstance(s, (ast.If, ast.Return)))
-    ok = 'if v != 0' in txt and ('v == 0' in txt)
-    ob(rep, 'TOK-formula', w.fq, 'zero counts are dropped on the separated and on the condensed branch', ok,
-       '`if v != 0` / `v == 0 ... continue`', 'a zero count is written out on one branch', w.loc(), clause)
+    w = program.func(f'{CU}:write_chem_formula')
+    # every place that emits components filters on the count: a comprehension `if` or a guard in the loop compares
+    # the count (second element of the iterated pairs) with 0
+    import re as _re
+    cw = Canon(w.node)
+    helper_names = {g_.name for g_ in writer_scope(ctx) if g_.fq != w.fq}
+    emitters = []
+    for x in walk_own(w.node):
+        if isinstance(x, (ast.ListComp, ast.GeneratorExp)) and any(
+                isinstance(y, ast.JoinedStr) or (isinstance(y, ast.Call) and isinstance(y.func, ast.Name) and
+                                                 y.func.id in helper_names) for y in ast.walk(x.elt)):
+            emitters.append(('comprehension', ' '.join(cw.text(i_) for g_ in x.generators for i_ in g_.ifs), x))
+        if isinstance(x, ast.For) and any(isinstance(y, ast.AugAssign) for y in ast.walk(x)):
+            emitters.append(('loop', ' '.join(cw.text(y.test) for y in ast.walk(x) if isinstance(y, ast.If)), x))
+    flt = _re.compile(r'each\([^)]*\)\.1 (!=|==) 0|(!=|==) 0')
+    bad = [e for e in emitters if not flt.search(e[1])]
+    ob(rep, 'TOK-formula', w.fq, 'zero counts are dropped on the separated and on the condensed branch',
+       len(emitters) >= 2 and not bad, f'{len(emitters)} emitting sites, all filtered on count != 0',
+       f'an emitting {bad[0][0] if bad else "site"} writes components without filtering zero counts (or fewer than two '
+       f'emitting sites were recognised: {len(emitters)})', w.loc(bad[0][2]) if bad else w.loc(), clause)
     m = program.func(f'{CU}:chem_mass')
     ok = any(isinstance(n, ast.If) and norm_stmt(n.test) == 'isinstance(formula, str)' and
              norm_stmt(n.body[0]) == 'formula = parse_chem_formula(formula, sep)' for n in walk_own(m.node))
@@ -294,7 +344,7 @@ def glycan_tokenizer(ctx, rep, clause):
                'no bundled name contains it', f'`{norm_stmt(n)[:60]}` removes {ch!r}, which occurs in the bundled '
                f'name(s) {hit[:3]}: a glycan written with such a name no longer parses to what it was written from',
                f.loc(n), clause)
-    longest = any('names_sorted' in norm_stmt(n.iter) for n in walk_own(f.node) if isinstance(n, ast.For))
+    longest = any('names_sorted' in norm_stmt(n.iter) for n in ast.walk(f.node) if isinstance(n, (ast.For, ast.comprehension)))
     ob(rep, 'TOK-glycan', f.fq, 'names are tried longest first', longest, 'MONOSACCHARIDES_DB.names_sorted',
        'the tokenizer no longer iterates the length-sorted name list: a short name would shadow a longer one', f.loc(),
        clause)
